@@ -161,6 +161,19 @@ func (vc *VC) resolveType(x ast.Expr, pkg *types.Package) (types.Type, *ghostTyp
 				}
 			}
 		}
+	case *ast.IndexListExpr:
+		// generic instantiation Name[T1, T2]
+		bt, _ := vc.resolveType(t.X, pkg)
+		var targs []types.Type
+		for _, ix := range t.Indices {
+			at, _ := vc.resolveType(ix, pkg)
+			targs = append(targs, at)
+		}
+		if n, ok := bt.(*types.Named); ok {
+			if inst, err := types.Instantiate(nil, n, targs, false); err == nil {
+				return inst, nil
+			}
+		}
 	case *ast.IndexExpr:
 		if id, ok := t.X.(*ast.Ident); ok && id.Name == "set" {
 			kt, _ := vc.resolveType(t.Index, pkg)
@@ -390,6 +403,11 @@ func (e *SpecEnv) evalIdent(x *ast.Ident) Term {
 	}
 	// local program variables visible by name (for loop invariants / asserts)
 	if o := vc.lookupProgramVar(e.st, x.Name); o != nil {
+		if cell, ok := e.st.cells[o]; ok {
+			// address-taken local: its current value lives in the cell
+			pt := under(cell.T).(*types.Pointer)
+			return vc.loadDeref(e.st, vc.ts.apply(pt.Elem()), cell.S)
+		}
 		return e.st.vars[o]
 	}
 	if e.pkg != nil {
@@ -626,6 +644,13 @@ func (e *SpecEnv) evalCall(x *ast.CallExpr) Term {
 			ao = e.old.alloc
 		}
 		return boolTerm(fmt.Sprintf("(and (<= %s %s) (< %s %s))", ao, v.S, v.S, e.st.alloc))
+	case "lfresh":
+		// lfresh(x): x was allocated since the enclosing loop was entered (loop invariants only)
+		v := e.eval(arg(0))
+		if e.lentry == nil {
+			vc.specFail(x, "lfresh() outside a loop invariant")
+		}
+		return boolTerm(fmt.Sprintf("(and (<= %s %s) (< %s %s))", e.lentry.alloc, v.S, v.S, e.st.alloc))
 	case "calledcount":
 		// number of times a context.CancelFunc value was called in this activation
 		f := e.eval(arg(0))
